@@ -38,6 +38,11 @@ CLAIMED = {
             'Static: new_var binds a fresh literal per value and posts the exactly-one unit clause exactly when asked; new_eq posts exactly the clauses that make the literal mean '
             '"same value" and handles identity / symmetry / disjoint domains / caching; allows/value tables; the only waiver (solver::new_enum) creates an exclusive, value-complete var_flaw.',
             'Rests on C13 (exactly-one) and C03.R1 (flaw expansion posts at-least-one and pairwise exclusion).', 'DESIGN.md 4 C14'),
+    'C11': ('four-way sibling comparison of the LRA relation builders with their table row abstracted + direct table-cell checks + dual check of lb/ub(lin) + routing check',
+            'Static, exhaustive over the 4x7 table: epsilon of the right-hand side, already-true/false tests on expression and slack, constraint kind and cache-key text of new_lt/leq/geq/gt; '
+            'the four builders are otherwise the same function; new_eq = geq and leq; lb/ub(lin) select bounds by coefficient sign; new_var(lin) seeds the slack from the expression; core routes by type. '
+            'Injectivity of the printed-expression cache key is not decided.',
+            'Trusts the semantics of assertion(op, slack, c) established by C09.R3.', 'DESIGN.md 4 C11'),
 }
 
 NOT_YET = {}
